@@ -954,4 +954,9 @@ pub mod vhook {
             .map(|(i, t)| (LARGE_PRIME_LOG + i, t.n_overflows, t.overflows.len()))
             .collect()
     }
+
+    /// (width of a bucket in sieve positions, number of hits a bucket can hold) of the bucket tables
+    pub fn bucket_params() -> (usize, usize) {
+        (BUCKET_WIDTH, BUCKET_SIZE)
+    }
 }
